@@ -28,6 +28,13 @@ def check(ctx):
             raise AnalysisError(f"{cls.name}: read/write not found")
         ropen = [c for c in rd.own_calls() if c11.is_open(m, rd, c)]
         wcall = [c for c in wr.own_calls() if m.callee_funcs(wr, c) & helpers]
+        if len(wcall) == 0:
+            direct = [c for c in wr.own_calls() if c11.mutating_call(m, wr, c)]
+            ctx.ob("C12.S1", f"{cls.name}/writes-through-staging", False, loc(wr, direct[0]) if direct else loc(wr),
+                   "write does not go through the staging helper that replaces the file: an existing file's content can survive a "
+                   "'successful' write (e.g. touching a non-empty file), so read() does not return what was written",
+                   norm(direct[0])[:80] if direct else "")
+            continue
         if len(ropen) != 1 or len(wcall) != 1:
             raise AnalysisError(f"{cls.name}: expected one open() in read and one staging call in write")
         ro, wc = ropen[0], wcall[0]
@@ -85,6 +92,21 @@ def check(ctx):
                        f"newline translation off ({norm(nl)})" if ok else
                        "the user's str is written/read raw in text mode with newline translation on: '\\r' and '\\r\\n' "
                        "come back as '\\n' (and '\\n' is written as os.linesep)", norm(c))
+    # staging names: two different targets never share a staging file (otherwise overlapping writes mix their values)
+    for f in publish:
+        ys = [n for n in f.own_nodes() if isinstance(n, ast.Yield)]
+        opens = [c for c in f.own_calls() if c11.is_open(m, f, c)]
+        svars = set()
+        if len(ys) == 1 and isinstance(ys[0].value, ast.Name) and not opens:
+            svars.add(ys[0].value.id)
+        for oc in opens:
+            a0 = arg(oc, 0, "file")
+            if isinstance(a0, ast.Name):
+                svars.add(a0.id)
+        before = len(ctx.obligations)
+        c11.check_staging_name(ctx, m, f, svars, f.pos_params[0])
+        for o in ctx.obligations[before:]:
+            o["rule"] = "C12.S1"
     # ------------------------------------------------------------ S2 mounted store
     ms = m.one_class("MountedStore", "MOUNTED")
     rd, wr = ms.methods["read"], ms.methods["write"]
